@@ -181,24 +181,32 @@ func (fst *FSTree) Query(q *query.Query, local, internal bool) (*iterator.Iterat
 		return nil, fmt.Errorf("invalid query: %w", err)
 	}
 
-	walkPrefix, err := fst.buildFilePath(q.DatabaseKeyPrefix(), false)
+	keyPrefix := q.DatabaseKeyPrefix()
+	walkPrefix, err := fst.buildFilePath(keyPrefix, false)
 	if err != nil {
 		return nil, err
 	}
-	fileInfo, err := os.Stat(walkPrefix)
-	var walkRoot string
-	switch {
-	case err == nil && fileInfo.IsDir():
-		walkRoot = walkPrefix
-	case err == nil:
+	// The key prefix is a string prefix, not a path: "a/b" also matches the
+	// keys "a/bc" and "a/b/c". All matching keys live in the directory named by
+	// the prefix up to its last separator; the walk is filtered by key below.
+	walkRoot := walkPrefix
+	if keyPrefix != "" && !strings.HasSuffix(keyPrefix, "/") && !strings.HasSuffix(keyPrefix, string(filepath.Separator)) {
 		walkRoot = filepath.Dir(walkPrefix)
-	case errors.Is(err, fs.ErrNotExist):
-		walkRoot = filepath.Dir(walkPrefix)
-	default: // err != nil
-		return nil, fmt.Errorf("fstree: could not stat query root %s: %w", walkPrefix, err)
 	}
 
 	queryIter := iterator.New()
+
+	fileInfo, err := os.Stat(walkRoot)
+	switch {
+	case err == nil && fileInfo.IsDir():
+		// Walk the directory.
+	case err == nil, errors.Is(err, fs.ErrNotExist):
+		// There is no such directory, so there are no records with this prefix.
+		queryIter.Finish(nil)
+		return queryIter, nil
+	default: // err != nil
+		return nil, fmt.Errorf("fstree: could not stat query root %s: %w", walkRoot, err)
+	}
 
 	go fst.queryExecutor(walkRoot, queryIter, q, local, internal)
 	return queryIter, nil
@@ -224,6 +232,16 @@ func (fst *FSTree) queryExecutor(walkRoot string, queryIter *iterator.Iterator, 
 			return nil
 		}
 
+		// check key
+		key, err := filepath.Rel(fst.basePath, path)
+		if err != nil {
+			return fmt.Errorf("fstree: failed to extract key from filepath %s: %w", path, err)
+		}
+		if !q.MatchesKey(filepath.ToSlash(key)) {
+			// not within the queried key prefix
+			return nil
+		}
+
 		// read file
 		data, err := os.ReadFile(path)
 		if err != nil {
@@ -234,10 +252,6 @@ func (fst *FSTree) queryExecutor(walkRoot string, queryIter *iterator.Iterator, 
 		}
 
 		// parse
-		key, err := filepath.Rel(fst.basePath, path)
-		if err != nil {
-			return fmt.Errorf("fstree: failed to extract key from filepath %s: %w", path, err)
-		}
 		r, err := record.NewRawWrapper(fst.name, key, data)
 		if err != nil {
 			return fmt.Errorf("fstree: failed to load file %s: %w", path, err)
